@@ -353,7 +353,7 @@ fn run_src(src: &str) -> RunRes {
 /// confirmation runs happen one at a time (no competition between this harness's own threads) with a longer limit
 static RERUN: std::sync::Mutex<()> = std::sync::Mutex::new(());
 
-#[derive(PartialEq, Debug)]
+#[derive(PartialEq, Debug, Clone)]
 enum RunCmp {
     Same,
     Inconclusive,
@@ -390,6 +390,8 @@ fn compare_runs(src: &str, f1: &str, ra: &RunRes, rb: &RunRes) -> RunCmp {
 }
 
 struct Ctx {
+    /// verdicts of run comparisons by (source, formatted text): many configurations give the same output
+    cmps: HashMap<(String, String), RunCmp>,
     evals: HashMap<String, Eval>,
     n_compile: usize,
     n_run: usize,
@@ -398,7 +400,7 @@ struct Ctx {
 
 impl Ctx {
     fn new(do_run: bool) -> Ctx {
-        Ctx { evals: HashMap::new(), n_compile: 0, n_run: 0, do_run }
+        Ctx { cmps: HashMap::new(), evals: HashMap::new(), n_compile: 0, n_run: 0, do_run }
     }
     fn eval(&mut self, src: &str, want_run: bool) -> Eval {
         if !self.evals.contains_key(src) {
@@ -416,6 +418,7 @@ impl Ctx {
     fn trim(&mut self) {
         if self.evals.len() > 4000 {
             self.evals.clear();
+            self.cmps.clear();
         }
     }
 }
@@ -520,7 +523,15 @@ fn check(ctx: &mut Ctx, src: &str, cfg: &Cfg, only: Option<&str>, mut stats: Opt
     // (iv) same results and output
     if let (Some(ra), Some(rb)) = (&a.run, &b.run) {
         if want("run") {
-            let c = compare_runs(src, &f1, ra, rb);
+            let key = (src.to_string(), f1.clone());
+            let c = match ctx.cmps.get(&key) {
+                Some(c) => c.clone(),
+                None => {
+                    let c = compare_runs(src, &f1, ra, rb);
+                    ctx.cmps.insert(key, c.clone());
+                    c
+                }
+            };
             if let Some(s) = stats.as_deref_mut() {
                 s.run_compared += 1;
                 match &c {
@@ -1534,6 +1545,26 @@ fn gen_program(r: &mut Rng) -> (String, Vec<&'static str>) {
 
 /// hand-written seeds: earlier counterexamples and the constructs of the property's quantifier
 const SEEDS: &[&str] = &[
+    // multi-line layout: inputs that needed two passes before 934337b / 9655245 / 6d3ddf9 (C10-2)
+    "[\n2\n4]",
+    "[\n4] ",
+    "{[\n1]}",
+    "[[\n𝕍]]",
+    "{\n3}{}",
+    "(+\n|) ",
+    "(\n+|) ",
+    "(()\n|⌵)1",
+    "(()\n|())[]",
+    "⊃(∘\n)(⇌) ",
+    "⊃(\n⊙)(-) ",
+    "a←((.\n1))",
+    "Fc t((√\n√))",
+    "b (1 (a\n√))",
+    "|1⍥((e\n4))",
+    "und(\ns)[()] ",
+    "┌─╴B G←(e\na)",
+    "┌╶╶\nd←(¤\n±)",
+    "┌─╴\nGa (e\n())",
     "((|1 X=)o)\n",
     "((|1!=)o)\n",
     // end-of-line comments, their alignment and appended output comments (glyph map / padding repairs of round 3)
